@@ -1136,6 +1136,18 @@ func (l *Ledger) Truncate(utxovmLastID []byte) error {
 		}
 	}
 
+	// the target block becomes the tip, its successor has just been removed
+	if len(block.NextHash) > 0 {
+		newTip := proto.Clone(block).(*pb.InternalBlock)
+		newTip.NextHash = []byte{}
+		l.blockCache.Del(string(newTip.Blockid))
+		err = l.saveBlock(newTip, batchWrite)
+		if err != nil {
+			l.xlog.Warn("truncate failed when saving the new tip", "err", err)
+			return err
+		}
+	}
+
 	newMeta.TrunkHeight = block.Height
 	metaBuf, err := proto.Marshal(newMeta)
 	if err != nil {
